@@ -1,0 +1,296 @@
+//go:build verif
+
+package jsonpath
+
+import (
+	"encoding/json"
+	"fmt"
+	"math"
+	"reflect"
+	"sort"
+	"strconv"
+	"strings"
+	"sync"
+)
+
+// Observation hooks for the verification harness. They only read: the parsed tree is
+// dumped as an S-expression, the list returned by a filter's query is recorded.
+// The sink is off by default; only single-threaded harness workers switch it on.
+
+var verifSink struct {
+	mu      sync.Mutex
+	on      bool
+	tree    string
+	filters []string
+}
+
+// VerifEnable switches recording on or off and clears what was recorded.
+func VerifEnable(on bool) {
+	verifSink.mu.Lock()
+	verifSink.on = on
+	verifSink.tree = ``
+	verifSink.filters = nil
+	verifSink.mu.Unlock()
+}
+
+// VerifLastTree returns the dump of the tree built by the last successful Parse.
+func VerifLastTree() string {
+	verifSink.mu.Lock()
+	defer verifSink.mu.Unlock()
+	return verifSink.tree
+}
+
+// VerifFilterLists returns and clears the recorded filter lists.
+func VerifFilterLists() []string {
+	verifSink.mu.Lock()
+	defer verifSink.mu.Unlock()
+	out := verifSink.filters
+	verifSink.filters = nil
+	return out
+}
+
+// VerifMarkers returns the current contents of the package-level marker lists.
+func VerifMarkers() string {
+	return verifCells(emptyList) + ` ` + verifCells(fullList)
+}
+
+func verifParsed(root syntaxNode) {
+	verifSink.mu.Lock()
+	if verifSink.on {
+		verifSink.tree = `(` + verifChain(root, 0) + `)`
+	}
+	verifSink.mu.Unlock()
+}
+
+func verifFilterList(list []interface{}, members int) {
+	verifSink.mu.Lock()
+	if verifSink.on && len(verifSink.filters) < 64 {
+		verifSink.filters = append(verifSink.filters, `(vl `+strconv.Itoa(members)+` `+verifCells(list)+`)`)
+	}
+	verifSink.mu.Unlock()
+}
+
+func verifStr(s string) string {
+	var b strings.Builder
+	b.WriteString(`(s`)
+	for _, r := range s {
+		b.WriteByte(' ')
+		b.WriteString(strconv.Itoa(int(r)))
+	}
+	b.WriteByte(')')
+	return b.String()
+}
+
+func verifBool(b bool) string {
+	if b {
+		return `t`
+	}
+	return `f`
+}
+
+func verifVal(v interface{}) string {
+	switch t := v.(type) {
+	case nil:
+		return `null`
+	case bool:
+		return `(b ` + verifBool(t) + `)`
+	case float64:
+		if t != math.Trunc(t) || math.Abs(t) > 1e18 {
+			return `(nonint ` + strconv.FormatFloat(t, 'g', -1, 64) + `)`
+		}
+		return `(n ` + strconv.FormatInt(int64(t), 10) + `)`
+	case json.Number:
+		if _, err := strconv.ParseInt(string(t), 10, 64); err != nil {
+			return `(nonint ` + string(t) + `)`
+		}
+		return `(j ` + string(t) + `)`
+	case string:
+		return verifStr(t)
+	case []interface{}:
+		parts := []string{`a`}
+		for _, x := range t {
+			parts = append(parts, verifVal(x))
+		}
+		return `(` + strings.Join(parts, ` `) + `)`
+	case map[string]interface{}:
+		keys := make([]string, 0, len(t))
+		for k := range t {
+			keys = append(keys, k)
+		}
+		sort.Strings(keys)
+		parts := []string{`o`}
+		for _, k := range keys {
+			parts = append(parts, `(`+verifStr(k)+` `+verifVal(t[k])+`)`)
+		}
+		return `(` + strings.Join(parts, ` `) + `)`
+	case emptyEntityType:
+		return `e`
+	}
+	return `(q ` + verifStr(reflect.TypeOf(v).String()) + ` 0)`
+}
+
+func verifCells(list []interface{}) string {
+	parts := make([]string, len(list))
+	for i, c := range list {
+		parts[i] = verifVal(c)
+	}
+	return `(` + strings.Join(parts, ` `) + `)`
+}
+
+func verifInfo(n *syntaxBasicNode) string {
+	return `(` + verifStr(n.text) + ` ` + verifStr(n.connectedText) + ` ` + verifBool(n.valueGroup) + ` ` + verifBool(n.accessorMode) + `)`
+}
+
+func verifBound(s *syntaxIndexSubscript) string {
+	return `(` + strconv.Itoa(s.number) + ` ` + verifBool(s.isOmitted) + `)`
+}
+
+func verifSub(s syntaxSubscript) string {
+	switch t := s.(type) {
+	case *syntaxIndexSubscript:
+		return `(i ` + strconv.Itoa(t.number) + `)`
+	case *syntaxSlicePositiveStepSubscript:
+		return `(slp ` + verifBound(t.start) + ` ` + verifBound(t.end) + ` ` + strconv.Itoa(t.step.number) + `)`
+	case *syntaxSliceNegativeStepSubscript:
+		return `(sln ` + verifBound(t.start) + ` ` + verifBound(t.end) + ` ` + strconv.Itoa(t.step.number) + `)`
+	case *syntaxWildcardSubscript:
+		return `w`
+	}
+	return fmt.Sprintf(`(unknown-subscript %T)`, s)
+}
+
+// verifChain dumps a node and everything reachable through next, space separated.
+func verifChain(n syntaxNode, depth int) string {
+	var parts []string
+	for n != nil && !reflect.ValueOf(n).IsNil() {
+		if depth > 64 {
+			parts = append(parts, `(cycle)`)
+			break
+		}
+		depth++
+		parts = append(parts, verifNode(n, depth))
+		n = n.getNext()
+	}
+	return strings.Join(parts, ` `)
+}
+
+func verifSameNext(a, b syntaxNode) string {
+	an, bn := a.getNext(), b.getNext()
+	aNil := an == nil || reflect.ValueOf(an).IsNil()
+	bNil := bn == nil || reflect.ValueOf(bn).IsNil()
+	if aNil || bNil {
+		return verifBool(aNil == bNil)
+	}
+	return verifBool(reflect.ValueOf(an).Pointer() == reflect.ValueOf(bn).Pointer())
+}
+
+func verifNode(n syntaxNode, depth int) string {
+	switch t := n.(type) {
+	case *syntaxRootIdentifier:
+		return `(root ` + verifInfo(t.syntaxBasicNode) + `)`
+	case *syntaxCurrentRootIdentifier:
+		return `(cur ` + verifInfo(t.syntaxBasicNode) + `)`
+	case *syntaxChildSingleIdentifier:
+		return `(child ` + verifInfo(t.syntaxBasicNode) + ` ` + verifStr(t.identifier) + `)`
+	case *syntaxChildWildcardIdentifier:
+		return `(wild ` + verifInfo(t.syntaxBasicNode) + `)`
+	case *syntaxChildMultiIdentifier:
+		ids := []string{`ids`}
+		for _, id := range t.identifiers {
+			switch it := id.(type) {
+			case *syntaxChildSingleIdentifier:
+				ids = append(ids, `(key `+verifInfo(it.syntaxBasicNode)+` `+verifStr(it.identifier)+` `+verifSameNext(id, n)+`)`)
+			case *syntaxChildWildcardIdentifier:
+				ids = append(ids, `(wild `+verifInfo(it.syntaxBasicNode)+` `+verifSameNext(id, n)+`)`)
+			default:
+				ids = append(ids, fmt.Sprintf(`(unknown-id %T)`, id))
+			}
+		}
+		twin := `nil`
+		if t.isAllWildcard {
+			subs := ``
+			for _, s := range t.unionQualifier.subscripts {
+				subs += ` ` + verifSub(s)
+			}
+			twin = `(twin ` + verifInfo(t.unionQualifier.syntaxBasicNode) + ` ` + verifSameNext(&t.unionQualifier, n) + subs + `)`
+		}
+		return `(multi ` + verifInfo(t.syntaxBasicNode) + ` (` + strings.Join(ids, ` `) + `) ` + twin + `)`
+	case *syntaxRecursiveChildIdentifier:
+		return `(desc ` + verifInfo(t.syntaxBasicNode) + ` ` + verifBool(t.nextMapRequired) + ` ` + verifBool(t.nextListRequired) + `)`
+	case *syntaxUnionQualifier:
+		subs := ``
+		for _, s := range t.subscripts {
+			subs += ` ` + verifSub(s)
+		}
+		return `(union ` + verifInfo(t.syntaxBasicNode) + subs + `)`
+	case *syntaxFilterQualifier:
+		return `(filter ` + verifInfo(t.syntaxBasicNode) + ` ` + verifQuery(t.query, depth) + `)`
+	case *syntaxFilterFunction:
+		return `(ffn ` + verifInfo(t.syntaxBasicNode) + `)`
+	case *syntaxAggregateFunction:
+		return `(afn ` + verifInfo(t.syntaxBasicNode) + ` (` + verifChain(t.param, depth) + `))`
+	}
+	return fmt.Sprintf(`(unknown-node %T)`, n)
+}
+
+func verifQuery(q syntaxQuery, depth int) string {
+	if depth > 64 {
+		return `(cycle)`
+	}
+	depth++
+	switch t := q.(type) {
+	case *syntaxLogicalOr:
+		return `(or ` + verifQuery(t.leftQuery, depth) + ` ` + verifQuery(t.rightQuery, depth) + `)`
+	case *syntaxLogicalAnd:
+		return `(and ` + verifQuery(t.leftQuery, depth) + ` ` + verifQuery(t.rightQuery, depth) + `)`
+	case *syntaxLogicalNot:
+		return `(not ` + verifQuery(t.query, depth) + `)`
+	case *syntaxBasicCompareQuery:
+		return `(cmp ` + verifComparator(t.comparator) + ` ` + verifQuery(t.leftParam, depth) + ` ` + verifQuery(t.rightParam, depth) + `)`
+	case *syntaxBasicCompareParameter:
+		return `(cp ` + verifBool(t.isLiteral) + ` ` + verifQuery(t.param, depth) + `)`
+	case *syntaxQueryParamLiteral:
+		return `(lit ` + verifCells(t.literal) + `)`
+	case *syntaxQueryParamRoot:
+		return `(proot ` + verifChain(t.param, depth) + `)`
+	case *syntaxQueryParamCurrentRoot:
+		return `(pcur ` + verifChain(t.param, depth) + `)`
+	}
+	return fmt.Sprintf(`(unknown-query %T)`, q)
+}
+
+func verifValidator(v syntaxTypeValidator) string {
+	switch v.(type) {
+	case *syntaxBasicNumericTypeValidator:
+		return `num`
+	case *syntaxBasicBoolTypeValidator:
+		return `bool`
+	case *syntaxBasicStringTypeValidator:
+		return `str`
+	case *syntaxBasicNilTypeValidator:
+		return `null`
+	case *syntaxBasicAnyValueTypeValidator:
+		return `any`
+	}
+	return fmt.Sprintf(`unknown-validator-%T`, v)
+}
+
+func verifComparator(c syntaxComparator) string {
+	switch t := c.(type) {
+	case *syntaxCompareDirectEQ:
+		return `(eq ` + verifValidator(t.syntaxTypeValidator) + `)`
+	case *syntaxCompareDeepEQ:
+		return `deq`
+	case *syntaxCompareLT:
+		return `lt`
+	case *syntaxCompareLE:
+		return `le`
+	case *syntaxCompareGT:
+		return `gt`
+	case *syntaxCompareGE:
+		return `ge`
+	case *syntaxCompareRegex:
+		return `(regex ` + verifStr(t.regex.String()) + `)`
+	}
+	return fmt.Sprintf(`(unknown-comparator %T)`, c)
+}
